@@ -1,0 +1,33 @@
+//go:build verif
+
+package code39
+
+// VerifEncodeInfo mirrors the unexported encodeInfo.
+type VerifEncodeInfo struct {
+	Value int
+	Data  []bool
+}
+
+// VerifEncodeTable exposes encodeTable for the /verif translator.
+func VerifEncodeTable() map[rune]VerifEncodeInfo {
+	res := make(map[rune]VerifEncodeInfo, len(encodeTable))
+	for r, e := range encodeTable {
+		res[r] = VerifEncodeInfo{e.value, append([]bool(nil), e.data...)}
+	}
+	return res
+}
+
+// VerifExtendedTable exposes extendedTable (full ASCII spellings) for the /verif translator.
+func VerifExtendedTable() map[rune]string {
+	res := make(map[rune]string, len(extendedTable))
+	for r, s := range extendedTable {
+		res[r] = s
+	}
+	return res
+}
+
+// VerifGetChecksum exposes getChecksum.
+func VerifGetChecksum(content string) string { return getChecksum(content) }
+
+// VerifPrepare exposes prepare.
+func VerifPrepare(content string) (string, error) { return prepare(content) }
